@@ -271,6 +271,40 @@ func runC14(c *core.Ctx) {
 			c.Sample(map[string]any{"log.yaml": clip(w.LogText, 600), "layout": layout, "via": via, "printed": clip(P, 600)})
 		}
 	})
+	// entry layouts the reader accepts besides the one print writes: a blank or the colon in front of the quantity,
+	// quotes around name and quantity, tabs, a dash - print reads them and writes the normal form
+	{
+		srv := pool.Servers[0]
+		logText := "2021/01/01:\n  coffee/cup :2\n  \"x\" :\"1.5\"\n  tea : 3\n\tjam:\t4\n  -  \"a b\":  5  \n  oat milk  6\n2021/01/02:\n  coffee/cup :1\n  coffee/cup: 1\n"
+		want := [][][2]string{{{"coffee/cup", "2.00"}, {"x", "1.50"}, {"tea", "3.00"}, {"jam", "4.00"}, {"a b", "5.00"}, {"oat milk", "6.00"}}, {{"coffee/cup", "2.00"}}}
+		srv.Write(map[string]string{"layouts.yaml": logText})
+		args := []string{"--no-color", "-l", "layouts.yaml", "print"}
+		res := srv.App1(args, nil)
+		c.Eval(1)
+		c.Count("print_of_a_log_in_mixed_entry_layouts", 1)
+		c.Nontrivial("mixed-layouts", logText)
+		doc := caseDoc{Files: map[string]string{"layouts.yaml": logText}, Args: args, Observed: resDoc(res)}
+		days, err := obs.ParsePrint(res.Out)
+		bad := ""
+		if res.Exit != 0 || res.Panic != "" || err != nil || len(days) != len(want) {
+			bad = fmt.Sprintf("exit %d err %q %v, %d days", res.Exit, res.Err, err, len(days))
+		} else {
+			for di, d := range days {
+				if len(d.Ents) != len(want[di]) {
+					bad = fmt.Sprintf("day %d has %d foods, want %d", di, len(d.Ents), len(want[di]))
+					break
+				}
+				for k, e := range d.Ents {
+					if e.Name != want[di][k][0] || e.Raw != want[di][k][1] {
+						bad = fmt.Sprintf("day %d food %d: (%q, %s), want (%q, %s)", di, k, e.Name, e.Raw, want[di][k][0], want[di][k][1])
+					}
+				}
+			}
+		}
+		if bad != "" {
+			c.Violation("print|mixed-entry-layouts", bad, doc)
+		}
+	}
 	// the default configuration location is covered by C16; here the explicit ones
 	// entry lines just below the longest line the tool reads: what print writes for them (a dash and two decimals
 	// more) must still be a line the tool reads
